@@ -48,15 +48,14 @@ TEXT = {'design_ref': 'DESIGN.md section 4, C04',
          "reproduces the real server's deliveries and per-node subscriber tables exactly on every generated history (incl. several payloads in one SETDATA, "
          "re-filtering next to overlapping subscriptions, BATCH); the direct oracle compares each client's replayed mirror with the brute-force matching set "
          '(PathMatcher::MatchesPath + QueryFilter::Matches over the in-process tree) at every quiescent point.',
- 'note': 'What `converges` does NOT cover is listed in one place, the header of Props/C04.lean ("COVERAGE OF THE FINAL THEOREM"): (1) a plain session that '
-         'carries the indexing flag — its snapshots contain its own nodes by design; (2) re-filtering by a plain session when one of its OWN nodes newly '
-         'passes the filter — the server then reports that own node although a fresh SUBSCRIBE would not (`exOwn` is the counter-example in the model; the '
-         "real ChangeQueryFilterCallback behaves the same; harmless for the other sessions' nodes the property is about, recorded as an observation); (3) "
-         "setting reflect-to-self while subscriptions are held (no snapshot is sent at that moment); (4) the subscriber's own departure; (5) paths that are "
-         "not GoodPaths (empty clause, or outside C15's pattern laws), SETDATA / INSERTORDEREDDATA beyond MUSCLE_MAX_NODE_DEPTH (the model has no depth check, "
-         "the code refuses them), host names containing '/'; (6) the engine's clone/save/restore/trees ops; (7) a start with subscriptions already held "
-         '(`run3_quiescent` covers it when the mirror is right at the start).  Those and everything else are still decided by correspondence + the mirror '
-         'oracle.  Oracle premises: clients that used quiet flags / disabled subscriptions / explicit GETDATA are exempt by definition of those features.  '
-         'Open finding F10 (two spellings of one subscription path) is kept out of the random stream and runs from corpus/C04/srv-known-F10.ops.  The order in '
-         'which the subscribers of one node are notified comes from a content-addressed table cache and is not modelled: max-items and multi-payload SETDATA '
-         'are only used in single-subscriber cases.'}
+ 'note': 'The last hypothesis the proof could not discharge (no own node newly passes a changed filter of a non-reflecting session) was a defect of the code, '
+         'repaired by 2824527; the old behaviour is kept as the counter-example `refilterOld`.  What `converges` does NOT cover is listed in one place, the '
+         'header of Props/C04.lean ("COVERAGE OF THE FINAL THEOREM"): (1) a plain session that carries the indexing flag — its snapshots contain its own nodes '
+         "by design; (2) setting reflect-to-self while subscriptions are held (no snapshot is sent at that moment); (3) the subscriber's own departure; (4) "
+         "paths that are not GoodPaths (empty clause, or outside C15's pattern laws), SETDATA / INSERTORDEREDDATA beyond MUSCLE_MAX_NODE_DEPTH (the model has "
+         "no depth check, the code refuses them), host names containing '/'; (5) the engine's clone/save/restore/trees ops; (6) a start with subscriptions "
+         'already held (`run3_quiescent` covers it when the mirror is right at the start).  Those and everything else are still decided by correspondence + '
+         'the mirror oracle.  Oracle premises: clients that used quiet flags / disabled subscriptions / explicit GETDATA are exempt by definition of those '
+         'features.  Open finding F10 (two spellings of one subscription path) is kept out of the random stream and runs from corpus/C04/srv-known-F10.ops.  '
+         'The order in which the subscribers of one node are notified comes from a content-addressed table cache and is not modelled: max-items and '
+         'multi-payload SETDATA are only used in single-subscriber cases.'}
